@@ -131,6 +131,14 @@ def cases(tier: str, rng: random.Random) -> List[Case]:
         for x in inputs:
             for m in ("sync", "async"):
                 out.append(std_case(t, x, m, lazy=[AINT], tag="a:stages"))
+    # unions of seven and eight variants (ends of the typed constructor's argument list)
+    for v_, x_ in G.wide_union_cases():
+        for m_ in ("sync", "async"):
+            out.append(std_case(v_, x_, m_, tag="a:wide-union"))
+    # optionals whose none_validator is the user's own
+    for v_, x_ in G.custom_none_cases():
+        for m_ in ("sync", "async"):
+            out.append(std_case(v_, x_, m_, tag="a:custom-none"))
     return out
 
 
